@@ -34,7 +34,10 @@ class StoreValues(Scenario):
         kind = self.params["kind"]           # float | integer | boolean
         dtype = self.params["dtype"]         # numpy dtype name of the assigned array
         pattern = self.params["pattern"]     # per element: s (symbolic finite) n (NaN) + - (infinities) b (32-bit boundary ...)
-        n = len(pattern)
+        n = len(pattern) + self.params.get("short", 0)      # short > 0: fewer values than vertices -> padded with gaps
+        shape2d = self.params.get("shape2d")                  # e.g. (2, 2): a 2-D array with more entries than vertices
+        if shape2d:
+            n = self.params["n_vertices"]
         h5shim.reset()
         patch.STUBS_USED.add("h5py (in workspace.workspace, shared.utils, io.h5_reader, io.h5_writer) -> symx.h5shim "
                              "proxy over the real in-memory HDF5 file; symbolic payloads kept beside it (A-H5)")
@@ -70,12 +73,18 @@ class StoreValues(Scenario):
                     raise ValueError(ch)
                 vals.append(v)
                 kinds.append(ch)
-            arr = mk_array(X, vals, (n,), dtype)
+            arr = mk_array(X, vals, tuple(shape2d) if shape2d else (len(vals),), dtype)
             try:
                 d.values = arr
             except Exception as e:  # noqa: BLE001
                 # the property does not require acceptance: a refusal is never a violation (it is counted as an outcome)
                 return f"raised {type(e).__name__}"
+            if shape2d:
+                cx.prove(len(vals) <= n, "an array with more entries than the geometry has is refused, whatever its shape",
+                         "unrepresentable values rejected")
+            if len(vals) < n:       # the missing entries are gaps
+                vals = vals + [math.nan] * (n - len(vals))
+                kinds = kinds + ["n"] * (n - len(kinds))
             # accepted: every element must be representable, the stored form uses the no-data codes, and a fresh
             # reader returns what was written
             for i, (v, ch) in enumerate(zip(vals, kinds)):
@@ -119,7 +128,12 @@ class StoreValues(Scenario):
             d2 = [e for e in ws2.data if e.uid == d.uid]
             cx.prove(len(d2) == 1, "fresh reader finds the data", "read back")
             if len(d2) == 1:
-                back = d2[0].values
+                try:
+                    back = d2[0].values
+                except Exception as e:  # noqa: BLE001
+                    cx.prove(False, f"stored values can be read back ({type(e).__name__})", "read back")
+                    ws2.close()
+                    return "read back raised"
                 be = elems(back)
                 cx.prove(len(be) == n, "read-back array has one entry per value", "read back")
                 if len(be) == n:
@@ -212,7 +226,12 @@ def scenarios(tier, seed):
               StoreValues(kind="boolean", dtype="int64", pattern="ss"),
               StoreValues(kind="boolean", dtype="bool", pattern="ss"),
               StoreValues(kind="boolean", dtype="float64", pattern="ss"),
-              StoreValueMap(keys=2)]
+              StoreValueMap(keys=2),
+              StoreValues(kind="integer", dtype="int8", pattern="s", short=1),
+              StoreValues(kind="integer", dtype="uint16", pattern="ss", short=1),
+              StoreValues(kind="float", dtype="float64", pattern="s", short=2),
+              StoreValues(kind="float", dtype="float64", pattern="ssss", shape2d=(2, 2), n_vertices=3),
+              StoreValues(kind="integer", dtype="int64", pattern="ssss", shape2d=(2, 2), n_vertices=2)]
     else:
         for dt in ("float64", "float32"):
             for pat in ("sns", "+s-", "nnn", "sss", "s"):
@@ -225,6 +244,12 @@ def scenarios(tier, seed):
         for pat in ("sn", "+", "-", "s+", "sss", "ns-"):
             S.append(StoreValues(kind="integer", dtype="float64", pattern=pat))
         S += [StoreValues(kind="boolean", dtype="bool", pattern="sss"), StoreValueMap(keys=2), StoreValueMap(keys=3)]
+        for dt in DT_RANGE:
+            S.append(StoreValues(kind="integer", dtype=dt, pattern="s", short=1))
+            S.append(StoreValues(kind="float", dtype=dt, pattern="s", short=1))
+        for kd, dt in (("float", "float64"), ("integer", "int64"), ("boolean", "int64")):
+            S.append(StoreValues(kind=kd, dtype=dt, pattern="ssss", shape2d=(2, 2), n_vertices=3))
+            S.append(StoreValues(kind=kd, dtype=dt, pattern="ssss", shape2d=(2, 2), n_vertices=4))
     return S
 
 
